@@ -268,6 +268,151 @@ Proof.
     + exact HG3.
 Qed.
 
+Lemma cell_text_eq r c : cell_text rows r c = snd (nth (Z.to_nat c) (nth (Z.to_nat r) rows []) (false, [])).
+Proof.
+  unfold cell_text, colt, column, text.
+  set (f := fun r0 : list cell => snd (nth (Z.to_nat c) r0 (false, []))).
+  assert (Hf0 : f [] = []) by (unfold f; destruct (Z.to_nat c); reflexivity).
+  transitivity (nth (Z.to_nat r) (map f rows) (f [])); [rewrite Hf0; reflexivity|apply map_nth].
+Qed.
+
+Lemma run_data_rows : forall rws r i e inds vals,
+  rws <> [] -> 0 <= r -> r + len rws = nrows -> 0 <= i ->
+  suf src i = render_file rws ->
+  (forall k, 0 <= k < len rws -> nthd [] rws k = nthd [] rows (r + k)) ->
+  Forall (fun rw => len rw = ncols) rws ->
+  Good (fun _ => r) inds vals ->
+  exists n s_pre inds' vals',
+    runn n (cstate i e 0 r inds vals) s_pre /\
+    step s_pre = Ok (cstate (len src) (len src - 1) 0 nrows inds' vals') /\
+    Good (fun _ => nrows) inds' vals'.
+Proof.
+  induction rws as [|row rws IH]; intros r i e inds vals Hne Hr Hlen Hi H Hnth Hrect HG; [contradiction|].
+  pose proof (Forall_inv Hrect) as Hrow. pose proof (Forall_inv_tail Hrect) as Hrect'. cbv beta in Hrow.
+  assert (Hrr : 0 <= r < nrows) by (rewrite len_cons in Hlen; pose proof (len_nonneg rws); lia).
+  assert (Hrow_ne : row <> []) by (intros ->; unfold len in Hrow; cbn in Hrow; lia).
+  assert (Htxt : forall j, 0 <= j < len row -> snd (nthd (false, []) row j) = cell_text rows r (0 + j)).
+  { intros j Hj. rewrite cell_text_eq. rewrite Z.add_0_l.
+    specialize (Hnth 0). rewrite Z.add_0_r in Hnth. unfold nthd in *. cbn [Z.to_nat nth] in Hnth.
+    rewrite <- Hnth by (rewrite len_cons; pose proof (len_nonneg rws); lia). reflexivity. }
+  assert (HG0 : Good (fun x => if x <? 0 then r + 1 else r) inds vals).
+  { eapply Good_ext; [|exact HG]. intros x Hx. cbv beta. destruct (x <? 0) eqn:E; [apply Z.ltb_lt in E; lia|reflexivity]. }
+  unfold render_file in H. cbn [map concat] in H. fold (render_file rws) in H.
+  destruct rws as [|row2 rws].
+  - (* last record of the file *)
+    destruct (run_data_cells r Hrr row 0 i e inds vals (render_file []) Hrow_ne ltac:(lia) ltac:(lia) Hi H I Htxt HG0)
+      as (n & s_pre & inds' & vals' & R & Hfin & HG').
+    pose proof (suf_full src i _ Hi H) as Hfull.
+    cbn [render_file map concat] in Hfull. rewrite app_nil_r in Hfull. specialize (Hfull (render_row_nonnil row)).
+    replace (len [row]) with 1 in Hlen by reflexivity.
+    exists n, s_pre, inds', vals'. split; [exact R|]. split.
+    + rewrite Hfin. rewrite <- Hfull. replace (r + 1) with nrows by lia. reflexivity.
+    + replace nrows with (r + 1) by lia. exact HG'.
+  - (* another record follows *)
+    remember (row2 :: rws) as more eqn:Em.
+    assert (Hmore : more <> []) by (subst; discriminate).
+    assert (Hnw : nows (render_file more)).
+    { apply nows_render_file. eapply Forall_impl; [|exact Hrect']. intros a Ha ->. unfold len in Ha; cbn in Ha; lia. }
+    destruct (run_data_cells r Hrr row 0 i e inds vals (render_file more) Hrow_ne ltac:(lia) ltac:(lia) Hi H Hnw Htxt HG0)
+      as (n & s_pre & inds1 & vals1 & R & Hfin & HG').
+    pose proof (suf_app_len src i _ _ Hi H) as Hs.
+    pose proof (len_nonneg (render_row row)) as Hl.
+    assert (Hlm : len (row :: more) = len more + 1) by apply len_cons.
+    destruct (IH (r + 1) (i + len (render_row row)) (i + len (render_row row) - 1) inds1 vals1 Hmore ltac:(lia) ltac:(lia) ltac:(lia) Hs)
+      as (n2 & s_pre2 & inds' & vals' & R2 & Hfin2 & HG2).
+    { intros k Hk. specialize (Hnth (k + 1)). rewrite Hlm in Hnth. specialize (Hnth ltac:(lia)).
+      rewrite nthd_cons_succ in Hnth by lia. rewrite Hnth. f_equal. lia. }
+    { exact Hrect'. }
+    { exact HG'. }
+    exists (n + (1 + n2))%nat, s_pre2, inds', vals'. split; [|split; assumption].
+    eapply runn_trans; [exact R|]. eapply runn_trans; [|exact R2].
+    apply runn_one; [exact Hfin|].
+    unfold noexit, cstate. cbn [s_index s_ifull s_vfull].
+    destruct (render_file more) as [|x t] eqn:E2.
+    { exfalso. subst more. unfold render_file in E2. cbn [map concat] in E2.
+      destruct (render_row_nonnil row2). destruct (render_row row2); [reflexivity|discriminate]. }
+    destruct (suf_cons src (i + len (render_row row)) x t ltac:(lia) Hs) as (Hlt & _). repeat split; lia.
+Qed.
+
+Lemma skip_ws0_stay n i x t : 0 <= i -> suf src i = x :: t -> x <> WS -> skip_ws0 n src i = Ok i.
+Proof.
+  intros Hi H Hx. destruct (suf_cons src i x t Hi H) as (Hlt & _ & _ & Hg).
+  assert (E : (i <? len src) = true) by (apply Z.ltb_lt; lia).
+  assert (Ex : (x =? WS) = false) by (apply Z.eqb_neq; exact Hx).
+  destruct n; cbn [skip_ws0]; rewrite E, Hg; cbn [bind]; rewrite Ex; reflexivity.
+Qed.
+
+(* the kernel on one window holding a whole rendered file *)
+Theorem kernel_roundtrip hdr inds vals :
+  len hdr = ncols -> Forall (fun rw => len rw = ncols) rows ->
+  src = render_file (hdr :: rows) ->
+  shape ncols w inds -> (forall c, 0 <= c < ncols -> I2 inds c 0 = 0) -> len vals = V ->
+  exists out, fast_csv_reader (fsm_fuel src 0) src 0 inds vals offs true = Ok out /\
+    f_next out = len src /\ f_rows out = nrows /\ f_ifull out = false /\ f_vfull out = false /\
+    Good (fun _ => nrows) (f_inds out) (f_vals out).
+Proof.
+  intros Hhdr Hrect Hsrc Hsh H0 Hv.
+  assert (Hhdr_ne : hdr <> []) by (intros ->; unfold len in Hhdr; cbn in Hhdr; lia).
+  assert (Hsuf : suf src 0 = render_row hdr ++ render_file rows).
+  { rewrite suf_0, Hsrc. reflexivity. }
+  assert (Hnw : nows (render_file rows)).
+  { apply nows_render_file. eapply Forall_impl; [|exact Hrect]. intros a Ha ->. unfold len in Ha; cbn in Ha; lia. }
+  pose proof (nows_render_row hdr (render_file rows) Hhdr_ne) as Hnw0.
+  destruct (render_row hdr ++ render_file rows) as [|x0 t0] eqn:E0.
+  { destruct (render_row_nonnil hdr). destruct (render_row hdr); [reflexivity|discriminate]. }
+  cbn [nows] in Hnw0.
+  destruct (suf_cons src 0 x0 t0 ltac:(lia) Hsuf) as (Hlt0 & _).
+  rewrite <- E0 in Hsuf.
+  unfold fast_csv_reader, fsm_init. cbn [Z.leb Z.compare bind].
+  replace (fst inds - 1) with maxrow by (destruct Hsh as (Hf & _); unfold w in Hf; lia).
+  rewrite (skip_ws0_stay _ 0 x0 t0) by (try lia; try assumption; rewrite Hsuf, E0; reflexivity). cbn [bind].
+  rewrite getZ_ok by lia. cbn [bind s_index].
+  destruct (0 =? len src) eqn:El; [apply Z.eqb_eq in El; lia|].
+  destruct (run_header_cells inds vals Hsh hdr 0 0 (0 - 1) 0 0 (nthZ offs 1) (render_file rows) Hhdr_ne ltac:(lia) ltac:(lia) ltac:(lia) Hsuf Hnw)
+    as (n1 & s_pre1 & R1 & Hfin1).
+  pose proof (len_nonneg (render_row hdr)) as Hlh. rewrite Z.add_0_l in Hfin1.
+  assert (Hrow0 : row0 inds vals (len (render_row hdr)) = cstate (len (render_row hdr)) (len (render_row hdr) - 1) 0 0 inds vals).
+  { unfold row0, cstate. replace (0 + 1) with 1 by lia. reflexivity. }
+  pose proof (suf_app_len src 0 _ _ ltac:(lia) Hsuf) as Hs1. rewrite Z.add_0_l in Hs1.
+  assert (HG0 : Good (fun _ => 0) inds vals) by (apply Good_init; try assumption; unfold w; lia).
+  assert (Hcase : rows = [] \/ rows <> []) by (destruct rows; [left; reflexivity|right; discriminate]).
+  destruct Hcase as [Erows|Hrne].
+  - (* no data record *)
+    pose proof (suf_full src 0 _ ltac:(lia) Hsuf ltac:(rewrite E0; discriminate)) as Hfull.
+    rewrite Erows in Hfull. cbn [render_file map concat] in Hfull. rewrite app_nil_r, Z.add_0_l in Hfull. clear Hs1. assert (Hs1 : len (render_row hdr) = len src) by lia.
+    pose proof (runn_index _ _ _ _ _ _ R1) as Hidx. pose proof (step_index _ _ _ _ _ Hfin1) as Hsi.
+    cbn [s_index] in Hidx. unfold row0 in Hsi. cbn [s_index] in Hsi.
+    exists (out_of (row0 inds vals (len (render_row hdr)))).
+    split.
+    + replace (fsm_fuel src 0) with (n1 + S (Z.to_nat (len src) - n1 - 0))%nat by (unfold fsm_fuel; lia).
+      rewrite (loop_runn _ _ _ _ _ _ _ R1). apply loop_last; [exact Hfin1|]. unfold row0. cbn [s_index]. exact Hs1.
+    + unfold out_of, row0. cbn [f_next f_rows f_ifull f_vfull f_inds f_vals s_eol s_row s_ifull s_vfull s_inds s_vals].
+      split; [lia|]. split; [unfold nrows; rewrite Erows; reflexivity|]. split; [reflexivity|]. split; [reflexivity|].
+      replace nrows with 0 by (unfold nrows; rewrite Erows; reflexivity). exact HG0.
+  - (* at least one data record *)
+    assert (Hrf : render_file rows <> []).
+    { destruct rows as [|row1 rows']; [contradiction|]. unfold render_file; cbn [map concat]. intros E.
+      destruct (render_row_nonnil row1). destruct (render_row row1); [reflexivity|discriminate]. }
+    destruct (run_data_rows rows 0 (len (render_row hdr)) (len (render_row hdr) - 1) inds vals Hrne ltac:(lia) ltac:(unfold nrows; lia) ltac:(lia) Hs1)
+      as (n2 & s_pre2 & inds' & vals' & R2 & Hfin2 & HG2).
+    { intros k Hk. rewrite Z.add_0_l. reflexivity. }
+    { exact Hrect. }
+    { exact HG0. }
+    assert (Rall : runn (n1 + (1 + n2)) (mkSt 0 (0 - 1) 0 (-1) (-1) false false 0 0 0 false false 0 (nthZ offs 1) inds vals) s_pre2).
+    { eapply runn_trans; [exact R1|]. eapply runn_trans; [|exact R2]. apply runn_one; [rewrite Hfin1; f_equal; exact Hrow0|].
+      unfold noexit, cstate. cbn [s_index s_ifull s_vfull].
+      destruct (render_file rows) as [|x t] eqn:E2; [contradiction|].
+      destruct (suf_cons src (len (render_row hdr)) x t ltac:(lia) Hs1) as (Hlt & _). repeat split; lia. }
+    pose proof (runn_index _ _ _ _ _ _ Rall) as Hidx. pose proof (step_index _ _ _ _ _ Hfin2) as Hsi.
+    cbn [s_index] in Hidx. unfold cstate in Hsi. cbn [s_index] in Hsi.
+    exists (out_of (cstate (len src) (len src - 1) 0 nrows inds' vals')).
+    split.
+    + replace (fsm_fuel src 0) with ((n1 + (1 + n2)) + S (Z.to_nat (len src) - (n1 + (1 + n2)) - 0))%nat by (unfold fsm_fuel; lia).
+      rewrite (loop_runn _ _ _ _ _ _ _ Rall). apply loop_last; [exact Hfin2|]. reflexivity.
+    + unfold out_of, cstate. cbn [f_next f_rows f_ifull f_vfull f_inds f_vals s_eol s_row s_ifull s_vfull s_inds s_vals].
+      split; [lia|]. split; [reflexivity|]. split; [reflexivity|]. split; [reflexivity|]. exact HG2.
+Qed.
+
 End Data.
 
 End Rows.
